@@ -89,6 +89,21 @@ class P(framework.Prop):
                 line = "search %s %s" % (wire.s(k), wire.val(doc))
                 self.expect[line] = "OK u1"
                 out.append(line)
+        # unquoted identifiers: every first character x every continuation character (exhaustive over [A-Za-z_][A-Za-z0-9_]),
+        # and every other ASCII character as a continuation candidate (the model and the code must cut the name at the same place)
+        import string
+        firsts = string.ascii_letters + "_"
+        conts = string.ascii_letters + string.digits + "_"
+        for a in firsts:
+            for b in conts:
+                k = a + b + a
+                line = "search %s %s" % (wire.s(k), wire.val({k: 1, a: 2, a + b: 3}))
+                self.expect[line] = "OK u1"
+                out.append(line)
+        for b in range(0, 128):
+            out.append("parse " + wire.s("a" + chr(b) + "b"))
+            out.append("parse " + wire.s(chr(b) + "b"))
+            out.append("parse " + wire.s("{a" + chr(b) + ": a}"))
         L = 4 if tier == "quick" else 6
         small = ["'", "\\", "`", '"', "a", "\n", "u"]
         for n in range(0, L + 1):
